@@ -138,7 +138,7 @@ def run_property(ck, pid, tier, seed, replay):
 
     stats = {}
     if cases:
-        results, crashes = ck.run_cases(cases, want_release=getattr(mod, "WANT_RELEASE", True))
+        results, crashes = ck.run_cases(cases, timeout=(3600 if tier == "thorough" else 1200), want_release=getattr(mod, "WANT_RELEASE", True))
         for kind, rc, err in crashes:
             print("PROCESS-CRASH: %s exited %s %s" % (kind, rc, err))
         bad = []
